@@ -186,6 +186,11 @@ def parse_probe(out):
 
 def typed_value(raw, ty):
     if ty == 'str':
+        # the value becomes a string LITERAL of an assertion: a value that needs an escape sequence (or a quote) has no spelling
+        # that reads the same before and after unescaping (the evaluator compares literals verbatim: c03:string-escapes), so no
+        # assertion is planted on it
+        if any(c in raw for c in b'\\"\'') or any(c < 32 or c > 126 for c in raw):
+            return None
         return bytes(raw)
     if ty == 'arr':
         m = re.fullmatch(rb'\[(-?\d+(?:, -?\d+)*)?\]', raw)
@@ -1051,6 +1056,12 @@ def cmp_model(c):
         if g.get('cls') != 'exit' or g.get('code') != 1 or g.get('binary'):
             bad.append('gate model on an out-of-bounds index: %s' % g)
         return bad
+    if m['cls'] == 'unmodelled':
+        # the model itself says the program leaves its fragment (e.g. str_substring starting at or past the end of the string, where
+        # the evaluator yields void: open finding c03:builtin:str_substring:...): no tie verdict; the property-level comparisons
+        # against the reference and the native binary still apply to the case
+        c.model_unmodelled = True
+        return []
     if m['cls'] != 'done':
         return ['model outcome %s (real rc=%s)' % (m['cls'], c.r_rc)]
     rt = c.r_verbose.get('tests', [])
